@@ -241,7 +241,7 @@ def params_list(tier):
         for p in progs:
             if "stream" in p and (start != "ring63" or p.count("stream") > 1 or (tier == "quick" and p[0] != "stream")):
                 continue
-            if "fastloop" in p and (start != "ring63" or p.count("fastloop") > 1 or (tier == "quick" and len(p) > 1 and p[0] != "fastloop") or "stream" in p):
+            if "fastloop" in p and (start != "ring63" or p.count("fastloop") > 1 or (tier == "quick" and len(p) > 1 and p[0] != "fastloop" and not (p[0].startswith(("idle", "long")) and p[1] == "fastloop")) or "stream" in p):
                 continue
             cfgs = [("cs", 1, 1.0 / 64)]
             if start == "ring63":
